@@ -68,7 +68,7 @@ def proj_c15(l):
 
 
 def proj_c11(l):
-    if l.startswith(("ret", "size ", "rec ", "name ", "pname ", "dumpw")):
+    if l.startswith(("ret", "size ", "rec ", "name ", "pname ", "dumpw", "burst")):
         return l
     if l.startswith("dir "):
         # id:len:durable:hash -> id:len:hash (durability is C04's business)
@@ -365,7 +365,11 @@ def oracle_c11(script, ig, mg):
     is the sum of the retained files."""
     fails = []
     prim = primary_cmds(script)
-    if sum(1 for c in prim if c == "open") != 1 or any(c in ("drop", "crash") for c in prim):
+    for i, g in enumerate(ig):
+        if g.line.startswith("burst ") and not g.line.startswith("burst ok"):
+            return [("write-or-flush-failed-under-back-pressure", {"group": i, "line": g.line})]
+    if sum(1 for c in prim if c == "open") != 1 or any(c in ("drop", "crash") for c in prim) \
+            or any(c.startswith("burst") for c in prim):
         return fails
     mr, ms = parse_cfg(script)
     expected = []  # (global_off, size, rec_prefix) of every journalled record
@@ -607,6 +611,10 @@ def scripts_c11(tier, rng):
             lines.append(l)
             if l.split()[0] in WRITE_WORDS:
                 lines += ["st", "stat"]
+        if i % 10 == 3 and not any(x.startswith("cfg") and ("ci=" in x or "cc=" in x) for x in lines):
+            # back-pressure: more requests than the queue holds while the worker is slow
+            t, ix = (g.m.last[0] + 1, g.m.last[1] + 1) if g.m.last else (1, 0)
+            lines += [f"burst {1100 + rng.below(300)} {t} {ix}"]
         lines += ["flush 9999", "widle", "st", "stat", "dir", "size", "dumpw"]
         out.append((f"c11_{i}", lines))
         for k, v in g.stats.items():
@@ -858,8 +866,12 @@ class Trace:
         self.live = {}         # index -> (term, chunk id)
         self.purged = None
         self.purges = []       # (upto, off, size) journalled purges
+        self.purge_group = None  # group index of the last journalled purge call
+        self.first_closed_at = {}  # chunk id -> group index of the first `stat` showing it closed
+        self.cur_group = 0
         self.closing_last = {} # chunk id -> last (t,i) or None when it was closed
         self.open_id = None
+        self.stray = {int(l.split()[2]) for l in script if l.startswith("fsop touch ")}
         self.seq = 0           # event counter
         self.created_seq = {}  # chunk id -> (seq at creation, head length)
 
@@ -918,6 +930,7 @@ class Trace:
             cmd = self.prim[i] if i < len(self.prim) else ""
             w = cmd.split()[0] if cmd else ""
             self.group_start_seq = self.seq
+            self.cur_group = i
             for e in g.evs:
                 if e.startswith("ev "):
                     self.on_ev(e, hooks)
@@ -929,7 +942,7 @@ class Trace:
                 for p in line.split()[1:]:
                     f = p.split(":")
                     cid, ln, du = int(f[0]), int(f[1]), int(f[2])
-                    if cid not in self.files:
+                    if cid not in self.files and cid not in self.stray:
                         self.files[cid] = dict(written=ln, synced=du, linked=True, base=ln)
             if w == "open" and line == "open ok":
                 # files seen for the first time keep their seeded counts
@@ -941,6 +954,7 @@ class Trace:
                     self.end = int(m.group(3))
                 for m2 in re.finditer(r"(\d+):(\d+):(\d+):(\d+):\[vote=\S+ last=(\S+) ", line.split(" open=")[0]):
                     cid, last = int(m2.group(1)), m2.group(5)
+                    self.first_closed_at.setdefault(cid, i)
                     self.closing_last[cid] = None if last == "-" else tuple(int(x) for x in last.split(","))
             if w in WRITE_WORDS and line.startswith("ret ok"):
                 off, size = [int(x) for x in line.split()[2].split(",")]
@@ -989,6 +1003,7 @@ class Trace:
                     self.purged = upto
                 # files created during this very call (rotation) already hold the purge in their head
                 self.purges.append((upto, off, size, self.group_start_seq))
+                self.purge_group = self.cur_group
 
 
 def oracle_c04(script, ig, mg):
@@ -1023,7 +1038,21 @@ def oracle_c04(script, ig, mg):
                                   "synced": f["synced"], "journal_end_at_flush": end}))
                 return
 
-    tr = Trace(script, ig).run({"cb": on_cb})
+    def on_group(tr, i, cmd, g):
+        # flush acknowledged, worker idle, then `stat` and `dir`: the journal end the store reports
+        # is on disk (open chunk id + file length = end)
+        if g.line.startswith("dir ") and i >= 3 and ig[i - 1].line.startswith("stat ") \
+                and ig[i - 2].line.startswith("wst idle") and tr.prim[i - 3].startswith("flush ") \
+                and ig[i - 3].line == "ret ok":
+            cbid = tr.prim[i - 3].split()[1]
+            if cbid != "-" and f"ev cb {cbid} ok" in ig[i - 2].evs + ig[i - 3].evs:
+                m = re.search(r"open=(\d+):(\d+):(\d+):(\d+):", ig[i - 1].line)
+                ents = {int(p.split(":")[0]): int(p.split(":")[1]) for p in g.line.split()[1:]}
+                if m and int(m.group(1)) in ents and int(m.group(1)) + ents[int(m.group(1))] != int(m.group(3)):
+                    tr.fails.append(("acknowledged-flush-but-journal-end-not-on-disk",
+                                     {"group": i, "stat": ig[i - 1].line[:120], "dir": g.line}))
+
+    tr = Trace(script, ig).run({"cb": on_cb, "group": on_group})
     if tr.fails:
         return tr.fails
     # exactly once when nothing failed and the worker ran to idle at the end
@@ -1073,6 +1102,20 @@ def oracle_c08(script, ig, mg):
             m = re.search(r"open=(\d+):", st)
             known.append(int(m.group(1)))
             on_disk = [int(p.split(":")[0]) for p in g.line.split()[1:]]
+            first_closed = re.search(r"closed=\((\d+):\d+:\d+:\d+:\[vote=\S+ last=(\S+) ", st)
+            if first_closed and tr.purges and first_closed.group(2) != "-":
+                cl = tuple(int(x) for x in first_closed.group(2).split(","))
+                if cl <= tr.purges[-1][0]:
+                    cid0 = int(first_closed.group(1))
+                    # closed by a LATER call than the purge that covers it: only the next purge
+                    # looks at it again (recorded finding); closed before or by the purge call itself
+                    # and still there: the removal was missed
+                    late = tr.purge_group is not None and tr.first_closed_at.get(cid0, 0) > tr.purge_group + 2
+                    tr.fails.append(("chunk-closed-after-its-purge-kept-until-next-purge" if late else
+                                     "obsolete-closed-chunk-kept-after-purge-flush-idle",
+                                     {"chunk": int(first_closed.group(1)), "closing_last": cl,
+                                      "last_purge": tr.purges[-1][0]}))
+                    return
             if sorted(on_disk) != sorted(known):
                 tr.fails.append(("obsolete-chunk-not-removed-or-needed-chunk-missing",
                                  {"directory": on_disk, "store_chunks": known}))
@@ -1124,7 +1167,7 @@ def oracle_c07(script, ig, mg):
     for i, (a, b) in enumerate(zip(ig, mg)):
         for s in b.spec:
             ch = s.split()[0]
-            if ch not in ("read", "iter") or not a.line.startswith(ch):
+            if ch not in ("read", "iter", "iter2") or not a.line.startswith(ch + " "):
                 continue
             if a.line != s:
                 cls = f"{ch}-differs-from-spec"
@@ -1211,7 +1254,7 @@ def proj_c08(l):
 
 
 def proj_c07(l):
-    if l.startswith(("read ", "iter ")):
+    if l.startswith(("read ", "iter ", "iter2 ")):
         return l
     if l.startswith("stat "):
         return "stat " + stat_cache(l)
@@ -1247,11 +1290,30 @@ def scripts_c04(tier, rng):
                         flush_prob=(1, 2), weights=dict(append=40, purge=6, truncate=4, ud=3, vote=6, commit=6))
         lines = with_stat_after_writes(g.script())
         lines.insert(2, "stat")
-        lines += ["flush 9998", "widle"]
+        lines += ["flush 9998", "widle", "stat", "dir"]
         out.append((f"c04_{i}", lines))
         for k, v in g.stats.items():
             stats[k] = stats.get(k, 0) + v
+    out += blocked_rotation_scripts(out[: (40 if tier == "quick" else 400)], rng, "c04x")
     return out, stats
+
+
+def blocked_rotation_scripts(named, rng, prefix):
+    """A caller-thread I/O error at rotation: a stray file already has the name of the chunk a
+    later rotation wants to create (learnt from a fault-free run of the model)."""
+    texts = "".join(f"begin {n}\n" + "\n".join(l) + "\nend\n" for n, l in named)
+    rc, outp, _ = core._run_bin(core.DRIVER, texts, 600)
+    res = []
+    for name, lines in core.split_scripts(outp).items():
+        ids = [int(l.split()[3]) for l in lines if l.startswith("ev create c ") and l.endswith("ok")]
+        if not ids:
+            continue
+        cid = ids[rng.below(len(ids))]
+        src = dict(named)[name]
+        k = src.index("open") + 1 if "open" in src else 0
+        tail = ["flush 9997", "widle", "stat", "dir"]
+        res.append((f"{prefix}_{name}", src[:k] + [f"fsop touch {cid}"] + src[k:] + tail))
+    return res
 
 
 def scripts_c08(tier, rng):
@@ -1266,7 +1328,12 @@ def scripts_c08(tier, rng):
             if l.split()[0] in WRITE_WORDS:
                 lines.append("stat")
             if l.startswith("purge") and rng.chance(2, 3):
-                lines += [f"flush {5000 + len(lines)}", "widle", "stat", "dir", f"read 0 {U64MAX}"]
+                if i % 4 == 1 and rng.chance(1, 2):
+                    # the first unlink of this removal fails
+                    fid = 5000 + len(lines)
+                    lines += [f"flush {fid}", f"wack {fid}", "w eio", "widle", "stat", "dir"]
+                else:
+                    lines += [f"flush {5000 + len(lines)}", "widle", "stat", "dir", f"read 0 {U64MAX}"]
         lines.insert(2, "stat")
         lines += ["flush 9998", "widle", "stat", "dir", f"read 0 {U64MAX}"]
         out.append((f"c08_{i}", lines))
